@@ -304,10 +304,16 @@ func freshSlice(f *eng.Fn, e ast.Expr, pt eng.Point, seen map[*eng.Def]bool) (bo
 	g := f.Graph()
 	switch x := ast.Unparen(e).(type) {
 	case *ast.CallExpr:
-		if f.CalleeID(x) == "builtin.make" {
+		cid := f.CalleeID(x)
+		if cid == "builtin.make" {
 			return true, ""
 		}
-		return false, "destination is the result of " + f.CalleeID(x)
+		// append-style calls return their first argument's memory (or a new
+		// allocation): fresh iff the first argument is
+		if (cid == "builtin.append" || strings.HasSuffix(cid, ".Append")) && len(x.Args) > 0 {
+			return freshSlice(f, x.Args[0], pt, seen)
+		}
+		return false, "destination is the result of " + cid
 	case *ast.SliceExpr:
 		return freshSlice(f, x.X, pt, seen)
 	case *ast.Ident:
@@ -324,6 +330,12 @@ func freshSlice(f *eng.Fn, e ast.Expr, pt eng.Point, seen map[*eng.Def]bool) (bo
 				continue
 			}
 			seen[d] = true
+			if d.Kind == eng.DefTuple && d.Index == 0 && d.RHS != nil {
+				if ok, why := freshSlice(f, d.RHS, d.At, seen); !ok {
+					return false, x.Name + " may alias other memory: " + why
+				}
+				continue
+			}
 			if d.Kind != eng.DefPlain || d.RHS == nil {
 				return false, x.Name + " may be " + defKindName(d) + " (not allocated here)"
 			}
